@@ -116,6 +116,19 @@ func c08Scenarios(tier string) []*Scenario {
 			scs[len(scs)-1].EnvCmdOut = map[string]string{"envcmd-e": "e\n"}
 		}
 	}
+	// requests that arrive while the process is being stopped by process-compose itself (its readiness probe gave
+	// up) and is slow to go down: Terminating, but not by a user's stop - the restart policy still applies until a
+	// stop is requested
+	{
+		ph := c08Phase{id: "probe-terminating", yaml: projectYAML(nil, PC{Name: "a", Restart: "always", Backoff: 1, Lines: []string{
+			"readiness_probe:", "  exec:", "    command: \"probe-a\"", "  period_seconds: 1", "  failure_threshold: 1"}}),
+			procs: map[string]*ProcScript{"a": {DieAfter: 3 * time.Second}}, target: "a", policy: true, ticks: 4,
+			aux: map[string][]string{"probe-a": {"fail", "ok"}}}
+		terminating := func(w *World) bool { return w.lastStat["a"] == "Terminating" }
+		for _, o := range ops {
+			mk(ph, "seq-"+o, 0, []APICall{{Op: o, Name: "a", When: terminating}})
+		}
+	}
 	// requests that name a replica after a scale request has renamed it (a -> a-0 when scaling 1 -> 2): the running
 	// instance answers to its new name and to no other
 	for _, rq := range []string{"start(a-0)", "stop(a-0)", "restart(a-0)", "stop(a)", "start(a)"} {
@@ -283,10 +296,14 @@ func c08Check(w *World, ph c08Phase, sequential bool) []Violation {
 		switch c.op {
 		case "stop":
 			// R2: stop of a running process => it ends, no relaunch
-			if !c.failed && liveAt(c.req) && st == "Running" && settled {
+			// (also when the command was already being terminated - by a probe, not by a user's stop - at the request;
+			// a relaunch that is observed is a violation however the execution ends)
+			if !c.failed && liveAt(c.req) && (st == "Running" || st == "Terminating") {
 				ex := findEvent(tr, c.req, func(e Event) bool { return e.Kind == "exit" && e.Proc == key })
 				if ex < 0 {
-					vs = append(vs, viol("C08", "stop-ineffective:alive", "stop(%s) returned nil but the command never exited (outcome %s)", x, w.Outcome))
+					if settled && st == "Running" {
+						vs = append(vs, viol("C08", "stop-ineffective:alive", "stop(%s) returned nil but the command never exited (outcome %s)", x, w.Outcome))
+					}
 				} else if sa := startAfter(ex); sa >= 0 && !laterCall(c.req, "start", "restart") && !concurrentWith(calls, c, "start", "restart") {
 					vs = append(vs, viol("C08", "stop-ineffective:relaunch:"+st, "stop(%s) was followed by a relaunch without a new start request", x))
 				}
